@@ -78,7 +78,7 @@ func boolTyped(t *T) bool {
 
 // Implied: is the atom fixed by the domain assumptions (given what the path
 // already decided)?
-func (d *Domain) Implied(atom *T, r *Run) (bool, bool) {
+func (d *Domain) Implied(atom *T, r *Path) (bool, bool) {
 	if strings.HasPrefix(atom.Op, "is-") && len(atom.Args) == 1 {
 		x := atom.Args[0]
 		ctor := atom.Op[3:]
